@@ -14,7 +14,7 @@ import os
 import subprocess
 
 from mc import refmodel as rm
-from mc.common import HarnessError
+from mc.common import HarnessError, REPO
 
 NOP_SLED = b"\x90" * 15
 
@@ -295,6 +295,38 @@ EXOTIC64 = """
  vscatterdps %zmm1,0x10(%rax,%zmm2,4){%k1}
  vgatherdps (%rax,%zmm1,4),%zmm2{%k1}
  vpcmpeqd (%rax,%rbx,2),%zmm1,%k2{%k3}
+ vgatherdps (%rax,%zmm31,4),%zmm1{%k1}
+ vgatherdps 0x10(%rax,%zmm17,4),%zmm21{%k2}
+ vscatterdps %zmm1,0x10(%r8,%zmm10,8){%k1}
+ vgatherdpd 0x8(,%xmm15,8),%xmm2{%k1}
+ vpgatherdd %ymm1,(%r8,%ymm12,4),%ymm2
+ vpgatherdd %xmm1,-0x80(%r15,%xmm11,1),%xmm14
+ vaddps %zmm30,%zmm29,%zmm28{%k7}{z}
+ lea 0x8(%eax,%r10d,4),%eax
+ lea -0x7fffffff(%r13d,%r15d,8),%r9d
+ mov 0xa(%rax),%rcx
+ mov 0x1a(%rax),%rcx
+ mov -0x1b(%rbx),%rcx
+ mov 0x8(%r8),%r8
+ mov 0x10(%r10),%r10b
+ mov 0x4d(%rdi),%dil
+ mov 0x5e(%esi),%sil
+ mov %spl,0x1c(%rcx)
+ movss %xmm1,%xmm0
+ addss 0x8(%rax),%xmm9
+ xsaves (%rdi)
+ lods %ds:(%rsi),%ax
+ vblendvps %xmm3,%xmm2,%xmm1,%xmm0
+ vinsertf128 $0x1,%xmm1,%ymm2,%ymm3
+ vpternlogd $0xff,%zmm1,%zmm2,%zmm3
+ vpermil2ps $0x0,%xmm3,(%rax),%xmm1,%xmm0
+ {vex} vpdpbusd %ymm2,%ymm1,%ymm0
+ {evex} vpaddd %xmm1,%xmm2,%xmm3
+ .byte 0xdb,0xe0
+ .byte 0xdb,0xe1
+ .byte 0xdb,0xe4
+ .byte 0xdb,0xe5
+ .byte 0xf3,0x0f,0xa7,0xd0
  kmovw %k1,%k2
  fadd %st(1),%st
  fxch %st(3)
@@ -367,6 +399,45 @@ EXOTIC32 = """
  aam $0xa
  arpl %ax,(%eax,%ebx,2)
 """
+
+
+# ----------------------------------------------------------------------------- corpus: every line of real listings
+
+SYSTEM_BINARIES = ["/usr/bin/objdump", "/bin/ls", "/usr/bin/as", "/usr/bin/gdb"]     # thorough only, when present
+
+
+def corpus_shards(tier):
+    """one shard per binary under <repo>/tests/binary (disassembled here with the real objdump) and one for all listing files
+    under <repo>/tests/assembly: a value-rich space (every register, prefix, suffix, symbol and addressing form these
+    programs contain), enumerated completely - every line is judged"""
+    import glob
+    sh = [{"kind": "corpus", "binary": p} for p in sorted(glob.glob(os.path.join(REPO, "tests", "binary", "*")))]
+    sh.append({"kind": "corpus", "listings": sorted(glob.glob(os.path.join(REPO, "tests", "assembly", "*.s")))})
+    if tier == "thorough":
+        sh += [{"kind": "corpus", "binary": p} for p in SYSTEM_BINARIES if os.path.exists(p)]
+    return sh
+
+
+def run_corpus(shard, h, res, known, clauses):
+    mop = h.mop(_TRIVIAL_RULE)
+    texts = []
+    if "binary" in shard:
+        r = subprocess.run(["objdump", "-d", "-M", "att", shard["binary"]], capture_output=True, text=True)
+        if r.returncode != 0:
+            res.count("corpus_files_not_disassembled")
+            return
+        texts.append((shard["binary"], r.stdout))
+    for p in shard.get("listings", []):
+        texts.append((p, open(p, encoding="utf-8", errors="replace").read()))
+    for path, text in texts:
+        problems, cnt = analyse_text(h, mop, text, clauses)
+        res.evaluations += cnt["inst_lines"]
+        res.nontrivial += cnt["inst_lines"]
+        res.count("corpus_lines", cnt["inst_lines"])
+        res.count("corpus_files")
+        for clause, line, exp, obs in problems[:40]:
+            res.fail({"clause": clause, "family": "corpus", "file": path.replace(REPO, "<repo>"), "line": line, "expected": str(exp)[:300],
+                      "observed": str(obs)[:300], "size": len(line or "")}, known)
 
 
 def run_exotic(h, res, known, clauses):
